@@ -4,9 +4,11 @@ from __future__ import annotations
 
 import json
 
+from hypothesis import strategies as st
+
 from vlib import asts, ref
 from vlib.interp import mk_op
-from vlib.runner import Fail, Sub
+from vlib.runner import Fail, InvalidCase, Sub
 
 PROPERTY_ID = "C06"
 RULE = (
@@ -56,13 +58,13 @@ def sig_io(m):
     return d["input"], d["output"]
 
 
-def check(case) -> list[Fail]:
+def check(case, obj=None) -> list[Fail]:
     from hugr.hugr import Hugr
     from hugr.hugr.node_port import InPort, Node, OutPort
 
     op = case["op"]
     k = op["k"]
-    x = mk_op(op)
+    x = mk_op(op) if obj is None else obj
     s = ref.ref_sig(op)
     fails: list[Fail] = []
     n = Node(5)
@@ -179,6 +181,87 @@ def check(case) -> list[Fail]:
     return fails
 
 
+PARTIAL = ("Noop", "MakeTuple", "UnpackTuple", "CallIndirect")
+
+
+def check_reused(case) -> list[Fail]:
+    """An operation object that is completed from its input wires, given to the builder a second time for
+    wires of other types: what it then reports (signatures, kinds, types, output count) is what the
+    specification assigns to the operation it now is."""
+    import hugr.tys as tys
+    from hugr.build.dfg import Dfg
+
+    from vlib.interp import mk_row
+    from vlib.progrun import partial_op
+
+    op = case["op"]
+    k = op["k"]
+    s = ref.ref_sig(op)
+    U = {"k": "unit"}
+    other = {"Noop": [U], "MakeTuple": [U], "UnpackTuple": [{"k": "tuple", "ts": [U]}], "CallIndirect": [{"k": "fn", "i": [], "o": [U], "reqs": []}]}[k]
+    actual = s["ins"]
+    d = Dfg(*mk_row(other), *mk_row(actual))
+    ws = d.inputs()
+    p = partial_op(op)
+    d.add_op(p, *ws[: len(other)])
+    try:
+        p.outer_signature()
+        p.num_out  # noqa: B018
+    except Exception:  # noqa: BLE001
+        pass
+    d.add_op(p, *ws[len(other):])
+    fs = check(case, obj=p)
+    if fs:
+        return [Fail("reused-operation-object", f"{k}:reports-an-earlier-use", f"{fs[0].clause}/{fs[0].locus}: {fs[0].msg}"[:300])]
+    return []
+
+
+def reused_strategy(tier):
+    return asts.op_asts(2, kinds=list(PARTIAL)).map(lambda o: {"op": o})
+
+
+def _is_reuse(case) -> bool:
+    return True
+
+
+REQUIRES = {"reused-operation-object": _is_reuse}
+
+
+def check_declared(case) -> list[Fail]:
+    """A function with declared outputs keeps reporting them (signature of the definition, kind of its
+    function port, instantiation of a recursive call) when set_outputs is refused for other wires."""
+    import hugr.tys as tys
+    from hugr.build.dfg import Function
+    from hugr.hugr.node_port import OutPort
+
+    from vlib.interp import mk_row
+
+    ins, decl = case["ins"], case["decl"]
+    if ref.enc_row(ins) == ref.enc_row(decl):
+        raise InvalidCase("the inputs would be accepted as outputs")
+    f = Function("f", mk_row(ins))
+    f.declare_outputs(mk_row(decl))
+    call = f.call(f.parent_node, *f.inputs()) if case["call"] and not any(ref.ref_bound(t) != "C" for t in ins) else None
+    try:
+        f.set_outputs(*f.inputs())
+        return []  # accepting is C13's business
+    except ValueError:
+        pass
+    want = ref.enc_row(decl)
+    fails = []
+    got = sig_io(f.parent_op.inner_signature())[1]
+    if got != want:
+        fails.append(Fail("inner_signature", "FuncDefn:after-refused-outputs", f"got={got} declared={want}"[:300]))
+    kd = f.hugr.port_kind(OutPort(f.parent_node, 0))
+    if not isinstance(kd, tys.FunctionKind) or sig_io(kd.ty.body)[1] != want:
+        fails.append(Fail("port_kind", "FuncDefn:function-port-after-refused-outputs", f"{kd!r}"[:300]))
+    if call is not None:
+        cop = f.hugr[call].op
+        if sig_io(cop.instantiation)[1] != want or sig_io(cop.signature.body)[1] != sig_io(f.parent_op.signature.body)[1]:
+            fails.append(Fail("outer_signature", "Call:callee-changed-after-refused-outputs", f"call {sig_io(cop.instantiation)[1]} callee {sig_io(f.parent_op.signature.body)[1]}"[:300]))
+    return fails
+
+
 def arity_changes(op) -> bool:
     if op["k"] not in ("Call", "LoadFunc") or not op["params"]:
         return False
@@ -207,6 +290,9 @@ def classes(case):
 
 
 SUBS = [
+    Sub("declared-functions", check_declared, strategy=lambda tier: st.fixed_dictionaries({"ins": st.lists(asts.types(1), max_size=3), "decl": st.lists(asts.types(1), max_size=3), "call": st.booleans()}),
+        nontrivial=lambda c: bool(c["decl"]), classes=lambda c: ["recursive-call"] if c["call"] else ["no-call"], n_quick=200, n_thorough=1500),
+    Sub("reused-partial-ops", check_reused, strategy=reused_strategy, nontrivial=lambda c: True, classes=lambda c: [c["op"]["k"]], n_quick=200, n_thorough=1500),
     Sub("rowpoly", check, strategy=lambda tier: asts.rowpoly_calls(2).map(lambda o: {"op": o}), nontrivial=nontrivial, classes=classes, n_quick=500, n_thorough=3000),
     Sub("ops", check, fuzz_runs=2000, strategy=lambda tier: asts.op_asts(2 if tier == "quick" else 3).map(lambda o: {"op": o}), nontrivial=nontrivial, classes=classes, n_quick=1500, n_thorough=8000),
     Sub(
